@@ -2,6 +2,7 @@ package rules
 
 import (
 	"fmt"
+	"go/token"
 	"go/types"
 
 	"gojaverif/core"
@@ -24,7 +25,9 @@ import (
 // boundary function (one whose deferred recover classifies the payload with
 // asUncatchableException). Everybody else either hands the *Exception on as such (script-internal
 // uses: promise jobs, iterator steps, Runtime.Try, whose documented result type is *Exception) or
-// goes through runWrapped.
+// goes through runWrapped. A conversion that happens only under `len(vm.callStack) != 0` is fine
+// too: with a run below, the uncatchable condition is meant to keep unwinding to that run's
+// boundary (turning it into an error value there would let script catch it).
 var TryError = &core.Rule{Name: "R-TRYERROR", Run: runTryError,
 	Doc: "the *Exception result of vm.try becomes a Go `error` only in a boundary function that also converts uncatchable conditions (interrupt, stack overflow) and resets the runtime"}
 
@@ -47,6 +50,43 @@ func runTryError(p *core.Prog) *core.Result {
 			}
 		})
 		return found
+	}
+	callStackF, err := p.Field(core.GojaPath, "vm", "callStack")
+	if err != nil {
+		return res.Fail(err)
+	}
+	// nestedOnly: block b executes only when len(vm.callStack) != 0
+	nestedOnly := func(b *ssa.BasicBlock) bool {
+		for _, cp := range core.ControllingConds(b) {
+			bo, ok := cp.Cond.(*ssa.BinOp)
+			if !ok {
+				continue
+			}
+			isLen := func(v ssa.Value) bool {
+				c, ok := v.(*ssa.Call)
+				if !ok {
+					return false
+				}
+				bi, ok := c.Call.Value.(*ssa.Builtin)
+				if !ok || bi.Name() != "len" {
+					return false
+				}
+				ld, ok := c.Call.Args[0].(*ssa.UnOp)
+				return ok && core.FieldOf(ld.X) == callStackF
+			}
+			if !isLen(bo.X) {
+				continue
+			}
+			k, okc := core.IntConst(bo.Y)
+			if !okc || k != 0 {
+				continue
+			}
+			switch {
+			case bo.Op == token.EQL && !cp.Pol, bo.Op == token.NEQ && cp.Pol, bo.Op == token.GTR && cp.Pol:
+				return true
+			}
+		}
+		return false
 	}
 	nTry, nConv := 0, 0
 	seen := map[string]int{}
@@ -106,6 +146,8 @@ func runTryError(p *core.Prog) *core.Result {
 			}
 			if isBoundary(top) {
 				res.OK(key, p.Pos(c.Pos()), "the function recovers and classifies uncatchable payloads itself")
+			} else if nestedOnly(c.Block()) {
+				res.OK(key, p.Pos(c.Pos()), "only when the call stack is not empty: an uncatchable condition keeps unwinding to the boundary of the run below")
 			} else {
 				res.Bad(key, p.Pos(c.Pos()), "the JS exception caught by vm.try is reported as a Go error, but an interrupt or stack overflow raised under the same call is re-panicked by handleThrow and nothing here recovers it: called from Go with no run below it, the API panics with *InterruptedError and the interrupt stays pending for the next run; use runWrapped")
 			}
